@@ -1333,7 +1333,9 @@ func c03_runC03(e *Env) {
 		"Recursion by every route (stream `recursion`): cycles of 1–3 generated functions whose hand-over to the next one is a call expression, a builtin's callback " +
 		"(list.each / map / filter, sorted, call), a deferred call, or a closure around one of those (each / try / defer), unbounded or to a depth around the end of the frame array (or 1200–3000), " +
 		"entered from the main code, through risor.Call, from a builtin at top level, on a spawned thread (waited for or `go`), from the body of the third module of an import chain; outcome against the model's `nestRun` under `enter` " +
-		"(value / error = recovered index panic / killed = native stack exhausted; children with a 64 MB stack). " +
+		"(value / error = recovered index panic / raised = the returned error `max call depth of 1024 exceeded` of vm.callFunction, which is what ends recursion through defer / killed = native stack exhausted: never predicted, " +
+		"a death is an unlisted violation; children with a 64 MB stack); directed: recursion through defer alone to depth 1023 / 1024, a refused recursion followed by an allowed one on the same VM, " +
+		"and deep legitimate programs (1000 nested calls, 2000 deferred calls in one frame, a deferred call in every level of a recursion of depth 900). " +
 		"Importers (stream `importer`): 1–10 Import calls on a real LocalImporter or FSImporter over a scratch directory, the module file rewritten before each call " +
 		"(missing / one of 16 texts that do not parse or compile / one of 7 that compile, .risor or .rsr, nested path), then 2–5 goroutines importing every name; " +
 		"results (module / not found / parse-or-compile error) against the model's `importSeq`. Stream `import`: scripts evaluated with risor.WithLocalImporter over 2–5 such module files " +
